@@ -268,6 +268,23 @@ class NeedConcrete(Exception):
     pass
 
 
+def _count_concretize():
+    """Concretising symbolic strings enumerates them; when the code under
+    test forces that on a large scale (hashing symbolic strings, C-level
+    calls) the cube is given up as inconclusive instead of running for
+    hours."""
+    from pysym.engine import Inconclusive
+    eng = cur()
+    eng.stats.concretize_forks = getattr(eng.stats, 'concretize_forks', 0) + 1
+    if eng.stats.concretize_forks > CONCRETIZE_LIMIT:
+        raise Inconclusive('more than %d concretisation forks: the code '
+                           'under test enumerates symbolic strings'
+                           % CONCRETIZE_LIMIT)
+
+
+CONCRETIZE_LIMIT = 60000
+
+
 def _ch_map(c, fn):
     """Apply a 1-char -> 1-char function to a character."""
     if isinstance(c, int):
@@ -384,6 +401,7 @@ class SymStr:
             dom = sorted(c.dom)
             pick = dom[-1]
             for a in dom[:-1]:
+                _count_concretize()
                 if mkbool(c.e == a):
                     pick = a
                     break
